@@ -264,6 +264,28 @@ def run_unknown(case):
     s, key, as_list = case
     if H.parse(s)[1] is not None:
         raise engine.HarnessError("%r is a recognised numeral" % s)
+    if as_list >= 2:
+        # the unrecognised numeral inside a longer progression: either the whole answer is the documented
+        # empty one, or (weaker reading) only that numeral's slot is empty and every other chord is there
+        arg = {2: ["I", s], 3: ["I", s, "V7"], 4: [s, "IV"]}[as_list]
+        ok, got = call("progressions.to_chords(%r, %r)" % (arg, key), mprog.to_chords, arg, key)
+        S.trans(1)
+        if not ok:
+            return
+        S.count("unknown_numerals_in_longer_progressions")
+        per_slot = []
+        for x in arg:
+            if x == s:
+                per_slot.append([])
+            else:
+                ok2, one = call("progressions.to_chords(%r, %r)" % (x, key), mprog.to_chords, x, key)
+                if not ok2 or len(one) != 1:
+                    return
+                per_slot.append(one[0])
+        S.outcome(("longer", as_list, got == []))
+        if got != [] and got != per_slot:
+            S.problem("progressions.to_chords(%r, %r)" % (arg, key), "[] (or an empty slot for the unrecognised numeral: %r)" % (per_slot,), got)
+        return
     arg = [s] if as_list else s
     ok, got = call("progressions.to_chords(%r, %r)" % (arg, key), mprog.to_chords, arg, key)
     S.trans(1)
@@ -283,8 +305,12 @@ def gen_unknown(key):
                 for as_list in (0, 1):
                     yield [p + core + suf, key, as_list]
     for other in ("X", "x", "N", "1", "C", "bX7", "?", " I", "-I"):
-        for as_list in (0, 1):
+        for as_list in (0, 1, 2, 3, 4):
             yield [other, key, as_list]
+    for core in ("VIII", "IIII", "viii"):
+        for as_list in (2, 3, 4):
+            yield [core, key, as_list]
+            yield ["b" + core + "7", key, as_list]
 
 
 # ---------------------------------------------------------------------------------------
@@ -514,6 +540,21 @@ def run_rules(case):
     if not ok:
         return
     S.outcome((rule, subject, ignore, repr(res)))
+    # the same question again after the general substitute() (and the other four rules) worked on the same
+    # progression: a rule's answer is a function of its arguments, not of what was asked before
+    for other in ("substitute", "substitute_harmonic", "substitute_minor_for_major", "substitute_major_for_minor",
+                  "substitute_diminished_for_diminished", "substitute_diminished_for_dominant"):
+        if other != rule:
+            try:
+                getattr(mprog, other)(list(before), index)
+            except Exception:                                   # noqa -- judged in their own cases
+                pass
+    ok2, res2 = call(site + " [asked again after the other substitution functions]", fn, *((list(before), index, True) if ignore else (list(before), index)))
+    S.trans(7)
+    if ok2 and res2 != res:
+        S.problem(site + " asked again after the other substitution functions ran on the same progression", res, res2,
+                  tags={"how": "history dependent"})
+        return
     if not check_results_shape(site, res):
         return
     if res:
